@@ -492,6 +492,8 @@ var switchKinds = []skKind{
 var leafKinds = []skKind{
 	{name: "if-empty"}, {name: "for-empty"}, {name: "case-empty"}, {name: "panic"}, {name: "panic-if"},
 	{name: "simple2"},
+	// empty bodies in the MIDDLE of a chain (an empty branch still terminates the chain when its condition holds)
+	{name: "elif-empty-middle"}, {name: "elif-empty-last"}, {name: "case-empty-middle"},
 	// calls of functions whose bodies contain loops / branches of their own (loop flags, labels and
 	// helper state of a callee must not interfere with the caller's constructs)
 	{name: "call-lf-three"}, {name: "call-lf-cond"}, {name: "call-lf-bare"}, {name: "call-lf-nested"}, {name: "call-lf-branch"},
@@ -673,7 +675,9 @@ var simpleCycle = []func() Stmt{
 	func() Stmt { return OpAssign{Name: "x", Op: "%", Val: IntLit{7}} },
 	func() Stmt { return Assign{Names: []string{"t"}, Vals: []Expr{Unary{Op: "!", X: Var{"t"}}}} },
 	func() Stmt { return OpAssign{Name: "w", Op: "+", Val: StrLit{V: "a"}} },
-	func() Stmt { return Assign{Names: []string{"x"}, Vals: []Expr{Binary{Op: "+", L: Var{"x"}, R: IntLit{1}}}} },
+	func() Stmt {
+		return Assign{Names: []string{"x"}, Vals: []Expr{Binary{Op: "+", L: Var{"x"}, R: IntLit{1}}}}
+	},
 }
 
 func (b *skBuilder) marker(ctrs []string) Stmt {
@@ -778,6 +782,12 @@ func (b *skBuilder) nodeInner(n skNode, ctrs []string, inLoop bool) []Stmt {
 		return []Stmt{If{Cond: b.cond(ctrs)}}
 	case k.name == "case-empty":
 		return []Stmt{Switch{Tag: s, Cases: []Case{{Val: IntLit{0}}, {Default: true, Body: []Stmt{b.simple()}}}}}
+	case k.name == "elif-empty-middle":
+		return []Stmt{If{Cond: eqc(s, 2), Then: []Stmt{b.simple()}, Elifs: []ElseIf{{Cond: Binary{Op: "<", L: s, R: IntLit{2}}}, {Cond: eqc(s, 1), Body: []Stmt{b.simple(), b.simple()}}}, Else: []Stmt{b.simple(), b.simple(), b.simple()}, HasElse: true}}
+	case k.name == "elif-empty-last":
+		return []Stmt{If{Cond: eqc(s, 2), Then: []Stmt{b.simple()}, Elifs: []ElseIf{{Cond: eqc(s, 0), Body: []Stmt{b.simple(), b.simple()}}, {Cond: Binary{Op: ">=", L: s, R: IntLit{0}}}}}}
+	case k.name == "case-empty-middle":
+		return []Stmt{Switch{Tag: s, Cases: []Case{{Val: IntLit{2}, Body: []Stmt{b.simple()}}, {Val: IntLit{0}}, {Val: IntLit{1}, Body: []Stmt{b.simple(), b.simple()}}, {Default: true, Body: []Stmt{b.simple(), b.simple(), b.simple()}}}}}
 	case k.name == "for-empty":
 		b.nextCtr++
 		c := fmt.Sprintf("c%d", b.nextCtr)
@@ -944,6 +954,10 @@ func c01SimplePrograms() []*Prog {
 		Define{Names: []string{"y"}, Form: DefVarInit, Vals: []Expr{StrLit{V: "v"}}},
 		Define{Names: []string{"y"}, Form: DefVarInit, Vals: []Expr{Binary{Op: "<", L: Var{"x"}, R: IntLit{5}}}},
 		Assign{Names: []string{"x", "w"}, Vals: []Expr{IntLit{9}, StrLit{V: "n"}}},
+		Assign{Names: []string{"x", "w"}, Vals: []Expr{Binary{Op: "+", L: Var{"x"}, R: IntLit{1}}, Itoa{X: Var{"x"}}}},
+		Assign{Names: []string{"x", "v2"}, Vals: []Expr{Group{X: Var{"v2"}}, Group{X: Var{"x"}}}},
+		Assign{Names: []string{"t", "x", "v2"}, Vals: []Expr{Binary{Op: "<", L: Var{"x"}, R: Var{"v2"}}, Var{"v2"}, Binary{Op: "*", L: Group{X: Var{"x"}}, R: IntLit{2}}}},
+		Assign{Names: []string{"w", "x"}, Vals: []Expr{Binary{Op: "+", L: Itoa{X: Var{"x"}}, R: Var{"w"}}, Len{X: Var{"w"}}}},
 		Print{}, Print{Args: []Expr{Var{"x"}}}, Print{Args: []Expr{Var{"x"}, Var{"t"}}}, Print{Args: []Expr{Var{"x"}, Var{"t"}, Var{"w"}}},
 		Print{Args: []Expr{Itoa{X: Var{"x"}}, Binary{Op: "+", L: Itoa{X: IntLit{12}}, R: StrLit{V: "z"}}}},
 	}
@@ -961,8 +975,9 @@ func c01SimplePrograms() []*Prog {
 		Define{Names: []string{"x"}, Form: DefShort, Vals: []Expr{IntLit{5}}},
 		Define{Names: []string{"t"}, Form: DefShort, Vals: []Expr{BoolLit{false}}},
 		Define{Names: []string{"w"}, Form: DefShort, Vals: []Expr{StrLit{V: "q"}}},
+		Define{Names: []string{"v2"}, Form: DefShort, Vals: []Expr{IntLit{3}}},
 	}
-	show := Print{Args: []Expr{StrLit{V: "end"}, Var{"x"}, Var{"t"}, Var{"w"}}}
+	show := Print{Args: []Expr{StrLit{V: "end"}, Var{"x"}, Var{"t"}, Var{"w"}, Var{"v2"}}}
 	wrap := []func(body []Stmt) []Stmt{
 		func(b []Stmt) []Stmt { return b },
 		func(b []Stmt) []Stmt { return []Stmt{If{Cond: BoolLit{true}, Then: b}} },
